@@ -124,6 +124,18 @@ EmitHist == /\ Mode = "machine" /\ ~done /\ Len(hist) = MaxOps + 1 /\ done' = TR
 Next == EmitTables \/ Machine \/ EmitHist
 Spec == Init /\ [][Next]_vars
 
+\* ---- laws of the register machine (MC in machine mode, N = 1): every reachable rectangle is well-formed, Add and AddPoint
+\* only grow the rectangle, And only shrinks it (or gives the zero rectangle), Translate and the lattice isometries keep the area
+WellFormed == r.x0 <= r.x1 /\ r.y0 <= r.y1
+LastOp == hist'[Len(hist')]
+Isometry(m) == m[1] * m[5] - m[2] * m[4] \in {1, 0 - 1} /\ m[1] * m[2] + m[4] * m[5] = 0 /\ m[1] * m[1] + m[4] * m[4] = 1
+MachineLaws == [][hist' # hist =>
+                    /\ (LastOp.op \in {"Add", "AddPoint"} => Contains(r', r))
+                    /\ (LastOp.op = "And" => (r' = Zero \/ Contains(r, r')))
+                    /\ (LastOp.op = "Translate" => Area(r') = Area(r))
+                    /\ (LastOp.op = "Expand" => (Contains(r', r) \/ Contains(r, r')))
+                    /\ (LastOp.op = "Transform" /\ Isometry(LastOp.arg) => Area(r') = Area(r))]_vars
+
 \* ---- design-level laws (MC, small N): the point-set definitions satisfy the lattice laws a user relies on -----------
 AndInBoth == \A q \in Rects : Overlaps(r, q) => (Contains(r, And(r, q)) /\ Contains(q, And(r, q)))
 AndIsZeroIffDisjoint == \A q \in Rects : Overlaps(r, q) <=> And(r, q) # Zero
